@@ -83,21 +83,23 @@ Proof.
 Qed.
 
 (* ----------------------------------------------- the characters of a float text *)
-Definition fchar (c : cp) : Prop := is_digit_char c \/ c = 45%N \/ c = 46%N \/ c = 101%N.
+Definition fchar (c : cp) : Prop := hexdigit c \/ c = 45%N \/ c = 46%N \/ c = 101%N.
 
 Lemma fchar_not_slash l : Forall fchar l -> ~ In 47%N l.
 Proof.
   intros H Hin. rewrite Forall_forall in H. destruct (H _ Hin) as [Hd|[?|[?|?]]]; try discriminate.
-  pose proof (digit_char_neqb 47%N 47%N Hd ltac:(lia)) as E. now rewrite N.eqb_refl in E.
+  pose proof (digit_char_neqb 47%N 47%N (hexdigit_is_digit_char _ Hd) ltac:(lia)) as E. now rewrite N.eqb_refl in E.
 Qed.
 
-Lemma Forall_fchar_digits r n : 2 <= r <= 36 -> 0 <= n -> Forall fchar (show_nat_radix r n).
-Proof. intros. eapply Forall_impl; [|apply show_nat_radix_chars; eassumption]. now left. Qed.
+Lemma Forall_fchar_digits r n : 2 <= r <= 16 -> 0 <= n -> Forall fchar (show_nat_radix r n).
+Proof. intros. eapply Forall_impl; [|apply show_nat_radix_hex_all; eassumption]. now left. Qed.
 
 Lemma Forall_fchar_int z : Forall fchar (show_int_radix 10 z).
 Proof.
-  eapply Forall_impl; [|apply (show_int_radix_chars 10 z); lia].
-  intros c [H|H]; [now left|right; now left].
+  destruct (Z_lt_le_dec z 0) as [Hz|Hz].
+  - rewrite show_int_radix_neg by assumption. constructor; [right; now left|].
+    apply Forall_fchar_digits; lia.
+  - rewrite show_int_radix_pos by assumption. apply Forall_fchar_digits; lia.
 Qed.
 
 Lemma fchar_zero : fchar 48%N.
